@@ -32,15 +32,38 @@ pub fn unhex(s: &str) -> Vec<u8> {
 // ---------------------------------------------------------------------------------------------
 // child side
 
+thread_local! {
+    static PEERS: std::cell::RefCell<std::collections::HashMap<String, std::rc::Rc<crate::host::Peer>>> = std::cell::RefCell::new(Default::default());
+}
+
+fn cached_peer(name: &str) -> std::rc::Rc<crate::host::Peer> {
+    PEERS.with(|p| p.borrow_mut().entry(name.to_string()).or_insert_with(|| std::rc::Rc::new(make_peer(name))).clone())
+}
+
+/// Initializes everything lazy (key derivation, parser tables, version statics) in the long-lived worker
+/// process, so that forked children do not redo it for every request.
+fn warm_up() {
+    for n in ["A", "B", "C", "M", "O"] {
+        cached_peer(n);
+    }
+    let _ = handle(&json!({"op": "exec", "air": "(seq (null) (call %init_peer_id% (\"s\" \"f\") [] x))", "peer": "A", "init": "A", "prev": "", "cur": "", "results": hex(&host::encode_results(&host::RawResults::new()))}));
+    let _ = handle(&json!({"op": "beautify", "text": "(null)"}));
+}
+
+/// A panic message built from corrupted data may hold arbitrary bytes: keep printable ASCII only.
+fn sanitize(p: &str) -> String {
+    p.bytes().take(600).map(|b| if (0x20..0x7f).contains(&b) { b as char } else { '?' }).collect()
+}
+
 fn handle(req: &Value) -> Value {
     let op = req["op"].as_str().unwrap_or("");
     let r = std::panic::catch_unwind(std::panic::AssertUnwindSafe(|| -> Value {
         match op {
             "exec" => {
-                let peer = make_peer(req["peer"].as_str().unwrap_or("A"));
+                let peer = cached_peer(req["peer"].as_str().unwrap_or("A"));
                 let init = match req["init_id"].as_str() {
                     Some(i) => i.to_string(),
-                    None => make_peer(req["init"].as_str().unwrap_or("A")).id,
+                    None => cached_peer(req["init"].as_str().unwrap_or("A")).id.clone(),
                 };
                 let part = Particle {
                     script: req["air"].as_str().unwrap_or("").to_string(),
@@ -58,7 +81,7 @@ fn handle(req: &Value) -> Value {
                         let same = o.data == prev;
                         json!({"ok": {"ret_code": o.ret_code, "error_message": o.error_message, "data_eq_prev": same, "data": if same { String::new() } else { hex(&o.data) }, "next": o.next_peer_pks, "requests": hex(&o.call_requests)}})
                     }
-                    Err(p) => json!({"panic": p}),
+                    Err(p) => json!({"panic": sanitize(&p)}),
                 }
             }
             "parse" => {
@@ -78,6 +101,20 @@ fn handle(req: &Value) -> Value {
                 let r = air::to_human_readable_data(d);
                 json!({"ok": {"readable": r.is_ok()}})
             }
+            "exec+human" => {
+                // both entry points on the same bytes in one (possibly isolated) evaluation
+                let probe = unsound_strings(&unhex(req["cur"].as_str().unwrap_or("")));
+                if probe {
+                    // the data deserializes into strings that are not valid UTF-8: nothing sound can be
+                    // done with it; report that instead of running into arbitrary behaviour
+                    return json!({"ok": {"unsound": true}});
+                }
+                let mut e = req.clone();
+                e["op"] = json!("exec");
+                let a = handle(&e);
+                let h = handle(&json!({"op": "human", "data": req["cur"]}));
+                json!({"ok": {"exec": a, "human": h}})
+            }
             "decode" => {
                 let d = unhex(req["data"].as_str().unwrap_or(""));
                 let env = air_interpreter_data::InterpreterDataEnvelope::try_from_slice(&d);
@@ -90,7 +127,7 @@ fn handle(req: &Value) -> Value {
     }));
     match r {
         Ok(v) => v,
-        Err(_) => json!({"panic": host::take_last_panic().unwrap_or_else(|| "<unknown>".into())}),
+        Err(_) => json!({"panic": sanitize(&host::take_last_panic().unwrap_or_else(|| "<unknown>".into()))}),
     }
 }
 
@@ -103,6 +140,8 @@ pub fn worker_main() -> i32 {
         let core = libc::rlimit { rlim_cur: 0, rlim_max: 0 };
         libc::setrlimit(libc::RLIMIT_CORE, &core);
     }
+    warm_up();
+    let timeout_s: u64 = std::env::var("VERIF_WORKER_TIMEOUT_S").ok().and_then(|s| s.parse().ok()).unwrap_or(20);
     let stdin = std::io::stdin();
     let stdout = std::io::stdout();
     let mut line = String::new();
@@ -113,10 +152,37 @@ pub fn worker_main() -> i32 {
             Ok(_) => {}
         }
         let req: Value = serde_json::from_str(line.trim_end()).unwrap_or(Value::Null);
-        let ans = handle(&req);
-        let mut out = stdout.lock();
-        let _ = writeln!(out, "{}", ans);
-        let _ = out.flush();
+        // One forked child per request: whatever a request does to the heap (corrupted archives can
+        // deserialize into values that are unsafe to touch or to drop) cannot leak into the next request,
+        // so a crash is always attributable to the request that was being evaluated.
+        // (fork is slow and does not scale across processes on this kind of VM, so only requests marked
+        // "isolate" - those whose data may deserialize into unsound values - pay for it)
+        let pid = if req["isolate"].as_bool() == Some(true) { unsafe { libc::fork() } } else { -1 };
+        if pid == 0 {
+            unsafe { libc::alarm(timeout_s as libc::c_uint) };
+            let ans = handle(&req);
+            let mut out = stdout.lock();
+            let _ = writeln!(out, "{}", ans);
+            let _ = out.flush();
+            unsafe { libc::_exit(0) };
+        } else if pid > 0 {
+            let mut status: libc::c_int = 0;
+            unsafe { libc::waitpid(pid, &mut status, 0) };
+            // the child arms an alarm for itself: SIGALRM = it ran longer than the time limit
+            let timed_out = libc::WIFSIGNALED(status) && libc::WTERMSIG(status) == libc::SIGALRM;
+            let ok = !timed_out && libc::WIFEXITED(status) && libc::WEXITSTATUS(status) == 0;
+            if !ok {
+                let how = if timed_out { format!("timeout after {timeout_s} s") } else if libc::WIFSIGNALED(status) { format!("signal {}", libc::WTERMSIG(status)) } else { format!("exit status {}", libc::WEXITSTATUS(status)) };
+                let mut out = stdout.lock();
+                let _ = writeln!(out, "{}", json!({"died": how}));
+                let _ = out.flush();
+            }
+        } else {
+            let ans = handle(&req);
+            let mut out = stdout.lock();
+            let _ = writeln!(out, "{}", ans);
+            let _ = out.flush();
+        }
     }
 }
 
@@ -172,15 +238,31 @@ impl Worker {
     }
 
     pub fn ask(&mut self, req: &Value) -> Answer {
+        let t0 = std::time::Instant::now();
+        let a = self.ask_inner(req);
+        if t0.elapsed().as_secs_f64() > 1.0 {
+            if let Ok(path) = std::env::var("VERIF_SLOW_LOG") {
+                use std::io::Write as _;
+                if let Ok(mut f) = std::fs::OpenOptions::new().create(true).append(true).open(path) {
+                    let _ = writeln!(f, "{:.1}s {:?} {}", t0.elapsed().as_secs_f64(), match &a { Answer::Ok(o) => format!("ok {}", o["ret_code"]), Answer::Panic(p) => format!("panic {}", p.chars().take(80).collect::<String>()), Answer::Died(d) => format!("died {d}") }, req.to_string().chars().take(3000).collect::<String>());
+                }
+            }
+        }
+        a
+    }
+
+    fn ask_inner(&mut self, req: &Value) -> Answer {
         self.requests += 1;
         let line = format!("{req}\n");
         if self.stdin.write_all(line.as_bytes()).is_err() || self.stdin.flush().is_err() {
             let st = self.restart();
             return Answer::Died(format!("worker not writable ({st})"));
         }
-        let mut ans = String::new();
-        match self.stdout.read_line(&mut ans) {
-            Ok(n) if n > 0 => {
+        // bytes, not a String: a panic message produced from corrupted data may hold invalid UTF-8
+        let mut raw: Vec<u8> = vec![];
+        match self.stdout.read_until(b'\n', &mut raw) {
+            Ok(n) if n > 0 && raw.ends_with(b"\n") => {
+                let ans = String::from_utf8_lossy(&raw).into_owned();
                 let v: Value = serde_json::from_str(ans.trim_end()).unwrap_or(Value::Null);
                 if let Some(p) = v.get("panic") {
                     return Answer::Panic(p.as_str().unwrap_or("").to_string());
@@ -188,9 +270,15 @@ impl Worker {
                 if let Some(o) = v.get("ok") {
                     return Answer::Ok(o.clone());
                 }
+                if let Some(d) = v.get("died") {
+                    return Answer::Died(d.as_str().unwrap_or("").to_string());
+                }
                 Answer::Died(format!("malformed answer {}", ans.chars().take(200).collect::<String>()))
             }
-            _ => {
+            other => {
+                if std::env::var("VERIF_DEBUG").is_ok() {
+                    crate::host::elog(&format!("[worker] read failed: {other:?}, {} bytes so far, request {}", raw.len(), req.to_string().chars().take(200).collect::<String>()));
+                }
                 // give the child a moment to be reaped so that the signal is visible
                 let st = {
                     let _ = self.child.try_wait();
@@ -202,6 +290,13 @@ impl Worker {
     }
 
     fn restart_after_death(&mut self) -> String {
+        // normally the child is gone already; if it is not (a half-written answer), it must not be waited for alive
+        if let Ok(None) = self.child.try_wait() {
+            std::thread::sleep(std::time::Duration::from_millis(50));
+            if let Ok(None) = self.child.try_wait() {
+                let _ = self.child.kill();
+            }
+        }
         let status = self.child.wait().map(|s| {
             use std::os::unix::process::ExitStatusExt;
             match (s.signal(), s.code()) {
@@ -229,4 +324,74 @@ impl Drop for Worker {
 /// Convenience: an `exec` request.
 pub fn exec_req(air: &str, peer: &str, init: &str, particle: &str, prev: &[u8], cur: &[u8], results: &[u8]) -> Value {
     json!({"op": "exec", "air": air, "peer": peer, "init": init, "particle": particle, "prev": hex(prev), "cur": hex(cur), "results": hex(results)})
+}
+
+/// True if `bytes` is an envelope whose inner data passes rkyv validation: only then can the interpreter
+/// deserialize it, and only then can a byte-level corruption have produced values that are unsound to use
+/// (rkyv 0.7 validates a shared pointer's target once per address, see DESIGN.md C01). Validation itself
+/// only reads inside the buffer.
+pub fn inner_data_validates(bytes: &[u8]) -> bool {
+    let Ok(env) = air_interpreter_data::InterpreterDataEnvelope::try_from_slice(bytes) else { return false };
+    let mut aligned = rkyv::AlignedVec::with_capacity(env.inner_data.len());
+    aligned.extend_from_slice(&env.inner_data);
+    rkyv::check_archived_root::<air_interpreter_data::InterpreterData>(&aligned[..]).is_ok()
+}
+
+/// True if the inner data of `bytes` deserializes and some reference-counted string in it (content ids,
+/// argument hashes: the `Rc<str>` fields) is not valid UTF-8 or is absurdly long. A `str` like that cannot be
+/// built by sound code: it is the footprint of rkyv 0.7 validating a shared pointer's target only once per
+/// address, so that a second pointer to the same address with another length goes unchecked and then
+/// deserializes into the first one's allocation. Only called inside an isolated child.
+pub fn unsound_strings(bytes: &[u8]) -> bool {
+    use air_interpreter_data::{CallResult, CanonResult, ExecutedState, InterpreterData, InterpreterDataEnvelope, Provenance, ValueRef};
+    let Ok(env) = InterpreterDataEnvelope::try_from_slice(bytes) else { return false };
+    let Ok(data) = InterpreterData::try_from_slice(&env.inner_data) else { return false };
+    let mut strs: Vec<std::rc::Rc<str>> = vec![];
+    for st in data.trace.iter() {
+        match st {
+            ExecutedState::Call(CallResult::Executed(ValueRef::Unused(c))) => strs.push(c.get_inner()),
+            ExecutedState::Call(c) => {
+                if let Some(cid) = c.get_cid() {
+                    strs.push(cid.get_inner());
+                }
+            }
+            ExecutedState::Canon(CanonResult::Executed(c)) => strs.push(c.get_inner()),
+            _ => {}
+        }
+    }
+    let ci = &data.cid_info;
+    for (k, _) in ci.value_store.iter() {
+        strs.push(k.get_inner());
+    }
+    for (k, _) in ci.tetraplet_store.iter() {
+        strs.push(k.get_inner());
+    }
+    for (k, v) in ci.service_result_store.iter() {
+        strs.push(k.get_inner());
+        strs.push(v.value_cid.get_inner());
+        strs.push(v.tetraplet_cid.get_inner());
+        strs.push(v.argument_hash.clone());
+    }
+    for (k, v) in ci.canon_result_store.iter() {
+        strs.push(k.get_inner());
+        strs.push(v.tetraplet.get_inner());
+        for e in &v.values {
+            strs.push(e.get_inner());
+        }
+    }
+    for (k, v) in ci.canon_element_store.iter() {
+        strs.push(k.get_inner());
+        strs.push(v.value.get_inner());
+        strs.push(v.tetraplet.get_inner());
+        match &v.provenance {
+            Provenance::Literal => {}
+            Provenance::ServiceResult { cid } => strs.push(cid.get_inner()),
+            Provenance::Canon { cid } => strs.push(cid.get_inner()),
+        }
+    }
+    let bad = strs.iter().any(|s| s.len() > 4096 || std::str::from_utf8(s.as_bytes()).is_err());
+    // never run destructors of possibly unsound values
+    std::mem::forget(strs);
+    std::mem::forget(data);
+    bad
 }
